@@ -5,13 +5,13 @@ C32 — The storage SCP stores exactly what it receives, only in its output dire
 
 Model: `DicomModel/Model/StoreScp.lean` (`storescp/src/store_sync.rs`, `store_async.rs`).
 
-Part 1 (where the file lands).  The statement's first clause — *for any SOP Instance UID text the
-file is created directly inside the output directory* — is FALSE of the code:
-`stored_inside_refuted_*` prove the negation on witnesses (`../x`, an absolute path, an existing
-sub-directory); the real binary does the same (finding `uid-path-escape`).  What does hold:
-`stored_inside_of_plain_uid` (every UID text without a path separator — in particular every legal
-DICOM UID, `stored_inside_of_legal_uid`) and, for the proposed repair, `fixed_stored_inside`
-(EVERY UID text).
+Part 1 (where the file lands).  `stored_inside`: the statement's first clause at full strength —
+for EVERY SOP Instance UID text (separators, `..`, absolute paths, NUL, …), every directory text,
+working directory and directory tree, a created file lies directly inside the output directory;
+`stored_inside_created`: and it is created there under the evident file-system conditions;
+`fileName_of_legal_uid`: well-formed UIDs keep the name `<uid>.dcm`.  The clause was FALSE of the
+code before fix 08d5699 (`legacy_stored_inside_refuted`, witnesses `legacy_escape_*`; finding
+`uid-path-escape`, reproduced on the real binary at the time).
 
 Part 2 (what is stored).  `store_message` / `stored_content`: for any state, any command, any split
 of the data set bytes into P-DATA values and any grouping into PDUs, exactly one file is written; its
@@ -37,40 +37,13 @@ theorem directlyInside_iff (D f : Comps) : directlyInside D f = true ↔ ∃ nam
   · rintro ⟨n, rfl⟩
     simp [directlyInside]
 
-/-- The first clause of the statement, as a proposition about the model: whatever the UID text,
-the created file lies directly inside the configured directory. -/
-def StoredInside : Prop :=
+/-- The first clause of the statement for a naming function `path dir uid`: whatever the UID
+text, the directory text, the working directory and the existing directories, a file that gets
+created lies directly inside the configured directory. -/
+def StoredInside (path : Str → Str → Str) : Prop :=
   ∀ (dirs : List Comps) (cwd : Comps) (dir uid : Str) (D f : Comps),
-    locateDir dirs cwd dir = some D → locate dirs cwd (outPath dir uid) = some f →
+    locateDir dirs cwd dir = some D → locate dirs cwd (path dir uid) = some f →
     directlyInside D f = true
-
-private def w : Str := ['w']
-private def o : Str := ['o']
-private def s : Str := ['s']
-private def dirs0 : List Comps := [[], [w], [w, o], [w, s], [w, o, s]]
-
-/-- `../x`: the file is created in the parent of the output directory -/
-theorem stored_inside_refuted_parent :
-    locateDir dirs0 [w] o = some [w, o] ∧
-    locate dirs0 [w] (outPath o ['.', '.', '/', 'x']) = some [w, ['x', '.', 'd', 'c', 'm']] := by
-  decide
-
-/-- an absolute UID text replaces the output directory altogether -/
-theorem stored_inside_refuted_absolute :
-    locate dirs0 [w] (outPath o ['/', 'w', '/', 's', '/', 'x']) = some [w, s, ['x', '.', 'd', 'c', 'm']] := by
-  decide
-
-/-- `s/x` with an existing sub-directory `s`: inside, but not directly inside -/
-theorem stored_inside_refuted_subdir :
-    locate dirs0 [w] (outPath o ['s', '/', 'x']) = some [w, o, s, ['x', '.', 'd', 'c', 'm']] := by
-  decide
-
-theorem stored_inside_refuted : ¬ StoredInside := by
-  intro h
-  have := h dirs0 [w] o ['.', '.', '/', 'x'] [w, o] [w, ['x', '.', 'd', 'c', 'm']]
-    stored_inside_refuted_parent.1 stored_inside_refuted_parent.2
-  revert this
-  decide
 
 theorem locate_of_pieces (dirs : List Comps) (cwd : Comps) (p : Str) (pre : List Str) (name : Str)
     (D : Comps) (hp : p ≠ []) (hn : nul ∉ p) (hs : splitOn '/' p = pre ++ [name])
@@ -81,6 +54,23 @@ theorem locate_of_pieces (dirs : List Comps) (cwd : Comps) (p : Str) (pre : List
   unfold locate
   have hl : ¬ (utf8Encode name).length > 255 := by omega
   simp [hp, hn, hs, h0, h1, h2, hl, hw, hfree]
+
+/-- conversely: whenever a file is created, it is the last piece, in the directory the walk over
+the other pieces reaches -/
+theorem pieces_of_locate (dirs : List Comps) (cwd : Comps) (p : Str) (pre : List Str) (name : Str)
+    (D f : Comps) (hs : splitOn '/' p = pre ++ [name])
+    (hw : walk dirs (if isAbs p then [] else cwd) pre = some D)
+    (h : locate dirs cwd p = some f) : f = D ++ [name] := by
+  unfold locate at h
+  simp only [hs, List.getLast?_append, List.getLast?_singleton, Option.some_or, Option.getD_some,
+    List.dropLast_concat, hw] at h
+  split at h
+  · simp at h
+  · split at h
+    · simp at h
+    · split at h
+      · simp at h
+      · exact (Option.some.inj h).symm
 
 theorem isAbs_append_of_ne_nil {a : Str} (b : Str) (h : a ≠ []) : isAbs (a ++ b) = isAbs a := by
   cases a with
@@ -105,38 +95,32 @@ theorem dcm_name_facts (base : Str) (hb : '/' ∉ base) :
       have : x ≠ '/' := fun e => hb (by simp [e])
       simp [isAbs, this]
 
-/-- A file name without path separator, pushed on the output directory, is created directly inside
-that directory (if the directory exists, the name is not too long and not an existing directory). -/
-theorem located_inside (dirs : List Comps) (cwd D : Comps) (dir base : Str)
-    (hb : '/' ∉ base) (hbn : nul ∉ base) (hdn : nul ∉ dir)
-    (hD : locateDir dirs cwd dir = some D)
-    (hlen : (utf8Encode (base ++ dcmExt)).length ≤ 255)
-    (hfree : D ++ [base ++ dcmExt] ∉ dirs) :
-    locate dirs cwd (push dir (base ++ dcmExt)) = some (D ++ [base ++ dcmExt]) := by
-  obtain ⟨hs, h0, h1, h2, hab⟩ := dcm_name_facts base hb
-  have hnn : nul ∉ base ++ dcmExt := by
-    intro h
-    rcases List.mem_append.mp h with h | h
-    · exact hbn h
-    · revert h; decide
-  unfold locateDir at hD
+/-- `push`ing a name without separator adds exactly one piece, and the other pieces walk to the
+directory the directory text names -/
+theorem push_pieces (dir base : Str) (hb : '/' ∉ base) :
+    ∃ pre, splitOn '/' (push dir (base ++ dcmExt)) = pre ++ [base ++ dcmExt] ∧
+      push dir (base ++ dcmExt) ≠ [] ∧
+      (∀ c, c ∈ push dir (base ++ dcmExt) → c ∈ dir ∨ c = '/' ∨ c ∈ base ++ dcmExt) ∧
+      ∀ (dirs : List Comps) (cwd D : Comps), locateDir dirs cwd dir = some D →
+        walk dirs (if isAbs (push dir (base ++ dcmExt)) then [] else cwd) pre = some D := by
+  obtain ⟨hs, h0, _, _, hab⟩ := dcm_name_facts base hb
   by_cases hd : dir = []
-  · -- empty directory text: the name alone, relative to the working directory
-    subst hd
+  · subst hd
     have hp : push [] (base ++ dcmExt) = base ++ dcmExt := by simp [push, hab]
-    rw [hp]
-    have hD' : D = cwd := by
+    refine ⟨[], ?_, ?_, ?_, ?_⟩
+    · rw [hp]; simpa using splitOn_of_not_mem hs
+    · rw [hp]; exact h0
+    · intro c hc; rw [hp] at hc; exact Or.inr (Or.inr hc)
+    · intro dirs cwd D hD
+      unfold locateDir at hD
       have : walk dirs cwd [[]] = some cwd := by simp [walk]
       simp [isAbs, splitOn] at hD
       rw [this] at hD
-      exact (Option.some.inj hD).symm
-    subst hD'
-    apply locate_of_pieces dirs D _ [] _ D h0 hnn (by simpa using splitOn_of_not_mem hs) h0 h1 h2 hlen
-    · simp [hab, walk]
-    · exact hfree
+      rw [hp]
+      simp [hab, walk]
+      exact (Option.some.inj hD)
   · by_cases hl : dir.getLast? = some '/'
-    · -- the directory text ends with a separator: no separator is added
-      obtain ⟨d', rfl⟩ : ∃ d', dir = d' ++ ['/'] := by
+    · obtain ⟨d', rfl⟩ : ∃ d', dir = d' ++ ['/'] := by
         refine ⟨dir.dropLast, ?_⟩
         have hne : dir ≠ [] := hd
         have : dir.getLast hne = '/' := by
@@ -146,91 +130,84 @@ theorem located_inside (dirs : List Comps) (cwd D : Comps) (dir base : Str)
         exact (List.dropLast_concat_getLast hne).symm
       have hp : push (d' ++ ['/']) (base ++ dcmExt) = d' ++ '/' :: (base ++ dcmExt) := by
         simp [push, hab]
-      rw [hp]
-      have hsp : splitOn '/' (d' ++ '/' :: (base ++ dcmExt)) = splitOn '/' d' ++ [base ++ dcmExt] := by
-        rw [splitOn_append_sep, splitOn_of_not_mem hs]
-      have habs : isAbs (d' ++ '/' :: (base ++ dcmExt)) = isAbs (d' ++ ['/']) := by
-        cases d' <;> simp [isAbs]
-      have hsd : splitOn '/' (d' ++ ['/']) = splitOn '/' d' ++ [[]] := by
-        rw [splitOn_append_sep]; simp [splitOn]
-      rw [hsd, walk_append] at hD
-      have hw : walk dirs (if isAbs (d' ++ ['/']) then [] else cwd) (splitOn '/' d') = some D := by
+      refine ⟨splitOn '/' d', ?_, ?_, ?_, ?_⟩
+      · rw [hp, splitOn_append_sep, splitOn_of_not_mem hs]
+      · rw [hp]; simp
+      · intro c hc
+        rw [hp] at hc
+        rcases List.mem_append.mp hc with h | h
+        · exact Or.inl (List.mem_append.mpr (Or.inl h))
+        · rcases List.mem_cons.mp h with h | h
+          · exact Or.inr (Or.inl h)
+          · exact Or.inr (Or.inr h)
+      · intro dirs cwd D hD
+        unfold locateDir at hD
+        have habs : isAbs (d' ++ '/' :: (base ++ dcmExt)) = isAbs (d' ++ ['/']) := by
+          cases d' <;> simp [isAbs]
+        have hsd : splitOn '/' (d' ++ ['/']) = splitOn '/' d' ++ [[]] := by
+          rw [splitOn_append_sep]; simp [splitOn]
+        rw [hsd, walk_append] at hD
+        rw [hp, habs]
         cases h : walk dirs (if isAbs (d' ++ ['/']) then [] else cwd) (splitOn '/' d') with
         | none => rw [h] at hD; simp at hD
         | some e =>
           rw [h] at hD
           simp [walk] at hD
           rw [hD]
-      apply locate_of_pieces dirs cwd _ (splitOn '/' d') _ D (by simp) ?_ hsp h0 h1 h2 hlen
-      · rw [habs]; exact hw
-      · exact hfree
-      · intro h
-        rcases List.mem_append.mp h with h | h
-        · exact hdn (List.mem_append.mpr (Or.inl h))
-        · rcases List.mem_cons.mp h with h | h
-          · revert h; decide
-          · exact hnn h
-    · -- the usual case: `dir` + `/` + name
-      have hp : push dir (base ++ dcmExt) = dir ++ '/' :: (base ++ dcmExt) := by
+    · have hp : push dir (base ++ dcmExt) = dir ++ '/' :: (base ++ dcmExt) := by
         have : dir.isEmpty = false := by cases dir <;> simp_all
         simp [push, hab, this, hl]
-      rw [hp]
-      have hsp : splitOn '/' (dir ++ '/' :: (base ++ dcmExt)) = splitOn '/' dir ++ [base ++ dcmExt] := by
-        rw [splitOn_append_sep, splitOn_of_not_mem hs]
-      apply locate_of_pieces dirs cwd _ (splitOn '/' dir) _ D (by simp) ?_ hsp h0 h1 h2 hlen
-      · rw [isAbs_append_of_ne_nil _ hd]; exact hD
-      · exact hfree
-      · intro h
-        rcases List.mem_append.mp h with h | h
-        · exact hdn h
+      refine ⟨splitOn '/' dir, ?_, ?_, ?_, ?_⟩
+      · rw [hp, splitOn_append_sep, splitOn_of_not_mem hs]
+      · rw [hp]; simp
+      · intro c hc
+        rw [hp] at hc
+        rcases List.mem_append.mp hc with h | h
+        · exact Or.inl h
         · rcases List.mem_cons.mp h with h | h
-          · revert h; decide
-          · exact hnn h
+          · exact Or.inr (Or.inl h)
+          · exact Or.inr (Or.inr h)
+      · intro dirs cwd D hD
+        unfold locateDir at hD
+        rw [hp, isAbs_append_of_ne_nil _ hd]
+        exact hD
 
-/-- **the first clause, for UID texts without a separator** (the `to_str` text `uid`) -/
-theorem stored_inside_of_plain_uid (dirs : List Comps) (cwd D : Comps) (dir uid : Str)
-    (hu : '/' ∉ uid) (hun : nul ∉ trimEndBy isNul uid) (hdn : nul ∉ dir)
-    (hD : locateDir dirs cwd dir = some D)
-    (hlen : (utf8Encode (fileName uid)).length ≤ 255)
-    (hfree : D ++ [fileName uid] ∉ dirs) :
-    locate dirs cwd (outPath dir uid) = some (D ++ [fileName uid]) ∧
-    directlyInside D (D ++ [fileName uid]) = true := by
-  refine ⟨?_, (directlyInside_iff _ _).mpr ⟨_, rfl⟩⟩
-  exact located_inside dirs cwd D dir (trimEndBy isNul uid)
-    (fun h => hu (mem_trimEndBy h)) hun hdn hD hlen hfree
+/-- any naming that pushes `<separator-free base>.dcm` on the directory satisfies the clause -/
+theorem stored_inside_of_plain_base (base : Str → Str) (hb : ∀ uid, '/' ∉ base uid) :
+    StoredInside fun dir uid => push dir (base uid ++ dcmExt) := by
+  intro dirs cwd dir uid D f hD hf
+  obtain ⟨pre, hs, _, _, hw⟩ := push_pieces dir (base uid) (hb uid)
+  have := pieces_of_locate dirs cwd _ pre _ D f hs (hw dirs cwd D hD) hf
+  exact (directlyInside_iff D f).mpr ⟨_, this⟩
 
-/-- a legal DICOM UID: digits and dots only -/
-def LegalUid (uid : Str) : Prop := ∀ c ∈ uid, c.isDigit = true ∨ c = '.'
+/-- **stored_inside** — the first clause of the statement, at full strength, for the code as it
+is (after fix 08d5699): for EVERY UID text, directory text, working directory and directory tree,
+a file that `storescp` creates lies directly inside its output directory. -/
+theorem stored_inside : StoredInside outPath :=
+  stored_inside_of_plain_base (fun uid => sanitise (trimEndBy isNul uid))
+    (fun _ h => (mem_sanitise h).1 rfl)
 
-theorem stored_inside_of_legal_uid (dirs : List Comps) (cwd D : Comps) (dir uid : Str)
-    (hu : LegalUid uid) (hdn : nul ∉ dir)
-    (hD : locateDir dirs cwd dir = some D)
-    (hlen : (utf8Encode (fileName uid)).length ≤ 255)
-    (hfree : D ++ [fileName uid] ∉ dirs) :
-    locate dirs cwd (outPath dir uid) = some (D ++ [fileName uid]) ∧
-    directlyInside D (D ++ [fileName uid]) = true := by
-  apply stored_inside_of_plain_uid dirs cwd D dir uid ?_ ?_ hdn hD hlen hfree
-  · intro h
-    rcases hu _ h with h | h
-    · revert h; decide
-    · revert h; decide
-  · intro h
-    rcases hu _ (mem_trimEndBy h) with h | h
-    · revert h; decide
-    · revert h; decide
-
-/-- **the repaired naming satisfies the first clause for EVERY UID text** -/
-theorem fixed_stored_inside (dirs : List Comps) (cwd D : Comps) (dir uid : Str)
+/-- … and the file IS created there (the store is not refused) whenever the directory exists, its
+text has no NUL, the name fits `NAME_MAX` and is not an existing directory -/
+theorem stored_inside_created (dirs : List Comps) (cwd D : Comps) (dir uid : Str)
     (hdn : nul ∉ dir) (hD : locateDir dirs cwd dir = some D)
-    (hlen : (utf8Encode (sanitise (trimEndBy isNul uid) ++ dcmExt)).length ≤ 255)
-    (hfree : D ++ [sanitise (trimEndBy isNul uid) ++ dcmExt] ∉ dirs) :
-    locate dirs cwd (outPathFixed dir uid) = some (D ++ [sanitise (trimEndBy isNul uid) ++ dcmExt]) ∧
-    directlyInside D (D ++ [sanitise (trimEndBy isNul uid) ++ dcmExt]) = true := by
-  refine ⟨?_, (directlyInside_iff _ _).mpr ⟨_, rfl⟩⟩
-  exact located_inside dirs cwd D dir (sanitise (trimEndBy isNul uid))
-    (fun h => (mem_sanitise h).1 rfl) (fun h => (mem_sanitise h).2 rfl) hdn hD hlen hfree
+    (hlen : (utf8Encode (fileName uid)).length ≤ 255)
+    (hfree : D ++ [fileName uid] ∉ dirs) :
+    locate dirs cwd (outPath dir uid) = some (D ++ [fileName uid]) := by
+  have hb : '/' ∉ sanitise (trimEndBy isNul uid) := fun h => (mem_sanitise h).1 rfl
+  have hbn : nul ∉ sanitise (trimEndBy isNul uid) := fun h => (mem_sanitise h).2 rfl
+  obtain ⟨hs0, h0, h1, h2, _⟩ := dcm_name_facts _ hb
+  obtain ⟨pre, hs, hne, hmem, hw⟩ := push_pieces dir _ hb
+  refine locate_of_pieces dirs cwd _ pre _ D hne ?_ hs h0 h1 h2 hlen (hw dirs cwd D hD) hfree
+  intro h
+  rcases hmem _ h with h | h | h
+  · exact hdn h
+  · revert h; decide
+  · rcases List.mem_append.mp h with h | h
+    · exact hbn h
+    · revert h; decide
 
-/-- the repair changes nothing for texts without separator or NUL -/
+/-- the repair changes nothing for texts without separator or NUL (every well-formed UID) -/
 theorem sanitise_id_of_plain {s : Str} (h1 : '/' ∉ s) (h2 : nul ∉ s) : sanitise s = s := by
   unfold sanitise
   induction s with
@@ -241,10 +218,66 @@ theorem sanitise_id_of_plain {s : Str} (h1 : '/' ∉ s) (h2 : nul ∉ s) : sanit
     have := ih (fun m => h1 (by simp [m])) (fun m => h2 (by simp [m]))
     simp [hx1, hx2, this]
 
--- hypotheses are satisfiable
+/-- a legal DICOM UID: digits and dots only -/
+def LegalUid (uid : Str) : Prop := ∀ c ∈ uid, c.isDigit = true ∨ c = '.'
+
+/-- legal UIDs keep the file name they always had: `<uid>.dcm` -/
+theorem fileName_of_legal_uid (uid : Str) (hu : LegalUid uid) : fileName uid = uid ++ dcmExt := by
+  have hmem : ∀ c ∈ uid, c ≠ '/' ∧ c ≠ nul := by
+    intro c hc
+    rcases hu c hc with h | h
+    · constructor <;> (intro e; subst e; revert h; decide)
+    · subst h; exact ⟨by decide, by decide⟩
+  have htrim : trimEndBy isNul uid = uid := by
+    unfold trimEndBy
+    cases hr : uid.reverse with
+    | nil => simpa using hr
+    | cons x xs =>
+      have hx : x ∈ uid := List.mem_reverse.mp (by rw [hr]; simp)
+      have : isNul x = false := by
+        have := (hmem x hx).2
+        simp [isNul, this]
+      rw [List.dropWhile_cons_of_neg (by simp [this]), ← hr, List.reverse_reverse]
+  unfold fileName
+  rw [htrim, sanitise_id_of_plain (fun h => (hmem _ h).1 rfl) (fun h => (hmem _ h).2 rfl)]
+
+/-! ### the code before fix 08d5699 did not satisfy the clause -/
+
+private def w : Str := ['w']
+private def o : Str := ['o']
+private def s : Str := ['s']
+private def dirs0 : List Comps := [[], [w], [w, o], [w, s], [w, o, s]]
+
+/-- `../x`: the file was created in the parent of the output directory -/
+theorem legacy_escape_parent :
+    locateDir dirs0 [w] o = some [w, o] ∧
+    locate dirs0 [w] (outPathLegacy o ['.', '.', '/', 'x']) = some [w, ['x', '.', 'd', 'c', 'm']] := by
+  decide
+
+/-- an absolute UID text replaced the output directory altogether -/
+theorem legacy_escape_absolute :
+    locate dirs0 [w] (outPathLegacy o ['/', 'w', '/', 's', '/', 'x']) = some [w, s, ['x', '.', 'd', 'c', 'm']] := by
+  decide
+
+/-- `s/x` with an existing sub-directory `s`: inside, but not directly inside -/
+theorem legacy_escape_subdir :
+    locate dirs0 [w] (outPathLegacy o ['s', '/', 'x']) = some [w, o, s, ['x', '.', 'd', 'c', 'm']] := by
+  decide
+
+theorem legacy_stored_inside_refuted : ¬ StoredInside outPathLegacy := by
+  intro h
+  have := h dirs0 [w] o ['.', '.', '/', 'x'] [w, o] [w, ['x', '.', 'd', 'c', 'm']]
+    legacy_escape_parent.1 legacy_escape_parent.2
+  revert this
+  decide
+
+-- the hypotheses are satisfiable, and the same inputs now stay inside
 example : locate dirs0 [w] (outPath o ['1', '.', '2']) = some [w, o, ['1', '.', '2', '.', 'd', 'c', 'm']] := by
   decide
-example : locate dirs0 [w] (outPathFixed o ['.', '.', '/', 'x']) = some [w, o, ['.', '.', '_', 'x', '.', 'd', 'c', 'm']] := by
+example : locate dirs0 [w] (outPath o ['.', '.', '/', 'x']) = some [w, o, ['.', '.', '_', 'x', '.', 'd', 'c', 'm']] := by
+  decide
+example : locate dirs0 [w] (outPath o ['/', 'w', '/', 's', '/', 'x']) =
+    some [w, o, ['_', 'w', '_', 's', '_', 'x', '.', 'd', 'c', 'm']] := by
   decide
 
 end Dicom.StoreScp
